@@ -132,3 +132,68 @@ fn c08_any_stream_same_as_blocking_6() {
     std::mem::forget(areader);
     std::mem::forget(breader);
 }
+
+/// A complete header-only message followed by 4 arbitrary bytes (a second header
+/// with any declared length): both calls of the async reader end like the
+/// corresponding calls of the blocking reader, under any Pending/Ready schedule.
+#[kani::proof]
+#[kani::unwind(11)]
+#[kani::stub(std::fmt::format, crate::models::fmt_format_stub)]
+fn c08_second_header_any_bytes() {
+    let d: [u8; 5] = kani::any();
+    let data: [u8; 8] = [0x20, d[0], 0, 4, d[1], d[2], d[3], d[4]];
+    let declared = u16::from_be_bytes([d[3], d[4]]) as usize;
+    kani::assume(declared <= 8);
+    let asrc = ASrc::<8> { data, len: 8, pos: 0, sched: kani::any(), step: 0, pendings: 0 };
+    let mut areader = DltStreamReader::with_capacity(8, 8, asrc, false);
+    let bsrc = crate::c07::Src::<8> { data, len: 8, pos: 0, sched: [255; K], step: 0, reads: 0 };
+    let mut breader = DltMessageReader::with_capacity(8, 8, bsrc, false);
+    // first message
+    let a1 = drive(&mut areader).map(|s| s.len());
+    let b1 = breader.next_message_slice().map(|s| s.len());
+    match (&a1, &b1) {
+        (Ok(x), Ok(y)) => assert!(*x == 4 && *y == 4, "first message"),
+        _ => assert!(false, "first message not delivered by both readers"),
+    }
+    // second call: whatever the blocking reader reports, the async reader reports the same
+    let a2 = drive(&mut areader).map(|s| s.len());
+    let b2 = breader.next_message_slice().map(|s| s.len());
+    match (&a2, &b2) {
+        (Ok(x), Ok(y)) => {
+            assert!(x == y, "async and blocking reader deliver different second slices");
+            kani::cover!(*x == 4, "second header-only message from both");
+            kani::cover!(*x == 0, "end of stream from both");
+        }
+        (Err(_), Err(_)) => {
+            kani::cover!(declared < 4, "declared length below the header: error from both");
+        }
+        _ => assert!(false, "async and blocking reader end differently on the second message"),
+    }
+    std::mem::forget(a1);
+    std::mem::forget(b1);
+    std::mem::forget(a2);
+    std::mem::forget(b2);
+    std::mem::forget(areader);
+    std::mem::forget(breader);
+}
+
+/// Smallest instance: one 5-byte message, any 2-step Pending/Ready schedule.
+#[kani::proof]
+#[kani::unwind(8)]
+#[kani::stub(std::fmt::format, crate::models::fmt_format_stub)]
+fn c08_one_message_any_schedule() {
+    let d: [u8; 2] = kani::any();
+    let data: [u8; 5] = [0x20, d[0], 0, 5, d[1]];
+    let src = ASrc::<5> { data, len: 5, pos: 0, sched: kani::any(), step: 0, pendings: 0 };
+    let mut reader = DltStreamReader::with_capacity(5, 5, src, false);
+    match drive(&mut reader) {
+        Ok(s) => {
+            assert!(s.len() == 5, "the message is not delivered as one cut");
+            let mut i = 0;
+            while i < 5 { assert!(s[i] == data[i]); i += 1; }
+            kani::cover!(true, "delivered");
+        }
+        Err(_) => assert!(false, "message not delivered"),
+    }
+    std::mem::forget(reader);
+}
